@@ -319,7 +319,7 @@ fn representatives() -> Vec<BitsDesc> {
 
 fn explore(ctx: &mut Ctx) {
     vcore::model::self_check().expect("reference model self-check failed");
-    let n = ctx.tier.pick(8, 16);
+    let n = ctx.tier.pick(10, 16);
     for len in 0..=n {
         for word in 0..(1u64 << len) {
             let d = BitsDesc::Word { len, word };
